@@ -85,7 +85,9 @@ func render(pkg string, structs []sdef, extra string) string {
 				continue
 			}
 			tag := ""
-			if fd.Tag != "" {
+			if strings.HasPrefix(fd.Tag, "`") {
+				tag = " " + fd.Tag // a complete raw struct tag
+			} else if fd.Tag != "" {
 				tag = " `parquet:\"" + fd.Tag + "\"`"
 			}
 			fmt.Fprintf(&sb, "\t%s %s%s\n", fd.Name, fd.Type, tag)
@@ -174,6 +176,47 @@ func decorations(b base, thorough bool) []decor {
 					st3 := append(cloneStructs(st), sdef{"Emb", []fdef{run[0], {Type: "Emb2", Embedded: true}}}, sdef{"Emb2", run[1:]})
 					out = append(out, decor{Desc: fmt.Sprintf("embedsplit@%s.%d-%d", s.Name, i, j), Structs: st3})
 				}
+			}
+		}
+	}
+	// other struct tags next to the parquet tag: an excluded field whose dash
+	// tag is surrounded by other keys stays excluded, and adding foreign keys
+	// to a column's tag changes nothing
+	for si, s := range b.Structs {
+		for i, fd := range s.Fields {
+			if fd.Embedded {
+				continue
+			}
+			name := fd.Tag
+			if name == "" {
+				name = fd.Name
+			}
+			for vi, raw := range []string{
+				"`json:\"" + name + "\" parquet:\"" + name + "\"`",
+				"`parquet:\"" + name + "\" json:\"-\"`",
+				"`db:\"x\" parquet:\"" + name + "\" json:\"y,omitempty\"`",
+			} {
+				if !thorough && vi > 1 {
+					break
+				}
+				st := cloneStructs(b.Structs)
+				g := fd
+				g.Tag = raw
+				st[si].Fields[i] = g
+				out = append(out, decor{Desc: fmt.Sprintf("extratag:%d@%s.%d", vi, s.Name, i), Structs: st})
+			}
+		}
+		for pos := 0; pos <= len(s.Fields); pos += len(s.Fields) + 0 {
+			for vi, raw := range []string{"`json:\"excl\" parquet:\"-\"`", "`parquet:\"-\" json:\"excl\"`", "`json:\"-\" parquet:\"-\" db:\"-\"`"} {
+				st := cloneStructs(b.Structs)
+				fs := append([]fdef(nil), st[si].Fields[:pos]...)
+				fs = append(fs, fdef{Name: "Excl", Type: "int32", Tag: raw})
+				fs = append(fs, st[si].Fields[pos:]...)
+				st[si].Fields = fs
+				out = append(out, decor{Desc: fmt.Sprintf("dashextratag:%d@%s.%d", vi, s.Name, pos), Structs: st})
+			}
+			if len(s.Fields) == 0 {
+				break
 			}
 		}
 	}
